@@ -154,6 +154,13 @@ func NewFakeAuth() *FakeAuth {
 				}
 			}
 		}
+		if c.Endpoint == "validate" {
+			// like the real authenticator, /validate answers with a status and NO body: the proxy never reads
+			// or closes that body, so a non-empty one would pin the connection (and its descriptor) until
+			// the client's time-out — tens of thousands of them in a long run
+			w.WriteHeader(ans.Status)
+			return
+		}
 		w.Header().Set("Content-Type", "application/json")
 		w.WriteHeader(ans.Status)
 		io.WriteString(w, ans.Body)
